@@ -424,9 +424,10 @@ func ruleComposeDecompose(w *World, r *RuleResult) {
 		}
 		for _, b := range p.Blocks {
 			for _, in := range b.Instrs {
-				if st, ok := in.(*ssa.Store); ok && w.exprOf(com, st.Addr).String() == "&d.Form" {
-					if k, ok := st.Val.(*ssa.Const); ok {
-						b2f[fb] = ci(k)
+				for _, v := range w.storedFieldValues(com, in, com.Params[0], "Form", 0) {
+					var n int64
+					if _, err := fmt.Sscanf(v, "%d", &n); err == nil {
+						b2f[fb] = n
 					}
 				}
 			}
